@@ -214,8 +214,18 @@ def _build_stream(ctx, frames, solo_ok) -> tuple[list[str], list[str], str, str]
             continue
         seen.add(f[4:])
         valid.append(f)
-    kind, junk = _junk(rng, frames)
-    junk = _clean(junk)
+    def fresh_junk() -> tuple[str, str]:
+        # a junk line whose frame part *is* one of the stream's valid frames (e.g. only an annotation was
+        # appended) is just a repeat of that frame: it would be delivered twice, which says nothing
+        for _ in range(50):
+            k, j = _junk(rng, frames)
+            j = _clean(j)
+            core = j.split("#")[0].split("*")[0].split("<")[0].strip()
+            if core[4:] not in seen and core not in seen:
+                return k, j
+        return "chatter", "# evofw3 0.7.1"
+
+    kind, junk = fresh_junk()
     pos_class = rng.choice(("first", "middle", "last", "adjacent"))
     stream = list(valid)
     if pos_class == "first":
@@ -226,8 +236,8 @@ def _build_stream(ctx, frames, solo_ok) -> tuple[list[str], list[str], str, str]
         stream.insert(rng.randint(1, n - 1), junk)
     else:
         i = rng.randint(1, n - 1)
-        k2, junk2 = _junk(rng, frames)
-        stream[i:i] = [junk, _clean(junk2)]
+        k2, junk2 = fresh_junk()
+        stream[i:i] = [junk, junk2]
         kind = f"{kind}+{k2}"
     return valid, stream, kind, pos_class
 
